@@ -1,0 +1,10 @@
+//go:build verif
+
+// Machine-checked contracts for package zconst (comment-only; compiled only with -tags verif).
+package zconst
+
+// notcode: "not_" is added to a code that lacks it and removed from one that has it.
+//@ spec notcode(e) = ite(prefixof("not_", e), substr(e, 4, strlen(e)-4), concat("not_", e))
+//@ func NotIssueCode(e)
+//@   pure
+//@   ensures[C17] toggles_not_prefix: result == notcode(e)
